@@ -30,6 +30,9 @@ EXPLANATION += (' ' + 'ADJUST/event-negative now requires that the value compare
 TRUSTED = ['protobuf copy semantics; schema text equals the generated module (pyi cross-check)']
 NOT_DECIDED = ['the numeric values of moved times', 'monotonicity of user-supplied time maps']
 ASSUMPTIONS = []
+# rules whose verdict does not depend on how the statements are arranged (semantic analyses); all other rules are shape rules:
+# when one of those fails in a function that was restructured relative to reference/signatures.json the verdict is "cannot decide"
+ROBUST = ()
 FLOORS = {'UNIFORM': 30, 'FRAME': 3, 'CONCAT': 8, 'REPEAT': 3, 'ADJUST': 4}
 
 
